@@ -1524,8 +1524,50 @@ fn c19_refused_open_truncates_lock(dir: PathBuf) -> ScenFut<'static> {
     })
 }
 
+fn c16_filter_block_unchecked(dir: PathBuf) -> ScenFut<'static> {
+    Box::pin(async move {
+        use surrealkv::verif::{verif_table_write, VerifEntry, VerifTableHandle};
+        std::fs::create_dir_all(&dir).map_err(|e| e.to_string())?;
+        let cfg = Cfg { bloom: true, block_size: 4096, ..base_cfg() };
+        let opts = cfg.to_options(&dir);
+        let entries: Vec<VerifEntry> = (0..24).map(|i| VerifEntry { user_key: format!("key{:03}", i).into_bytes(), seq: 100 + i as u64, kind: 2, ts: 0, value: format!("value-{i}").into_bytes() }).collect();
+        let path = dir.join("t.sst");
+        verif_table_write(&path, 3, &opts, 0, &entries).map_err(|e| e.to_string())?;
+        let pristine = std::fs::read(&path).map_err(|e| e.to_string())?;
+        let alt = dir.join("alt.sst");
+        for at in 0..pristine.len() {
+            let mut b = pristine.clone();
+            b[at] ^= 0xff;
+            std::fs::write(&alt, &b).map_err(|e| e.to_string())?;
+            let res = std::panic::catch_unwind(std::panic::AssertUnwindSafe(|| -> Result<(), String> {
+                let Ok(t) = VerifTableHandle::open(&alt, 3, &opts) else { return Ok(()) };
+                for e in &entries {
+                    match t.get(&e.user_key, u64::MAX >> 8) {
+                        Err(_) => {}
+                        Ok(Some(g)) if g == *e => {}
+                        Ok(other) => return Err(format!("byte {} of a {}-byte table file altered: get({}) returns {} instead of the stored entry or an error", at, pristine.len(), String::from_utf8_lossy(&e.user_key), if other.is_some() { "another entry" } else { "nothing" })),
+                    }
+                }
+                Ok(())
+            }));
+            match res {
+                Ok(Ok(())) => {}
+                Ok(Err(e)) => return Err(e),
+                Err(_) => return Err(format!("byte {} of a {}-byte table file altered: reading it panicked: {}", at, pristine.len(), crate::panics::take_last())),
+            }
+        }
+        Ok(())
+    })
+}
+
 pub fn all() -> Vec<Scenario> {
     vec![
+        Scenario {
+            id: "C16-filter-block-unchecked",
+            property: "C16",
+            title: "every byte of a small table file altered in turn, then point lookups of all stored keys",
+            run: c16_filter_block_unchecked,
+        },
         Scenario {
             id: "C19-refused-open-truncates-lock",
             property: "C19",
